@@ -110,3 +110,13 @@ Theorem C08_expand_write_index_in_block : forall l1 l2 window0 rb re cb ce,
   (Z.max (cbs cb) (e_min l1 l2 window0 rb ce r ri) <= ci < Z.min (ces ce) (e_hi l1 l2 window0 rb ce r ri))%Z ->
   (0 <= (ri + 1 - rb) * (ce - cb) + (ci + 1 - cb) < (re - rb) * (ce - cb))%Z.
 Proof. exact expand_write_index_in_block. Qed.
+
+(* dtw_wps_loc / dtw_wps_loc_columns (index of a cell / of the first stored column of a row: used by
+   dtw_best_path_customstart, dtw_wps_negativize / positivize, the relaxed-end search): for every row and every column the
+   routines enumerate for it, the returned slot is the layout slot c - shift(r - 1), inside the row. *)
+From DV Require Import CLoc.
+From DVGen Require Import Gen_cloc.
+
+Theorem C08_wps_loc_returns_the_layout_slot : forall l1 l2 window0, (1 <= l1)%Z -> (1 <= l2)%Z -> (0 <= window0)%Z ->
+  forall r, In r loc_regions -> loc_ok l1 l2 window0 r.
+Proof. exact loc_regions_follow_the_layout. Qed.
